@@ -10,10 +10,14 @@ CLAIMED = {
  "C01": "bounded symbolic execution of the real reader+parser+printer: every catalogue program with one symbolic lexeme (all names/digits/labels/literal bodies of the stated length) is parsed, printed, re-parsed, re-printed on every feasible path; fixpoint assertions decided by z3",
  "C02": "token sequence of the printed text vs the source's, computed by an independent lexer that runs symbolically on both; tokenisation kernels (splitquote, splitparen, string_replace_map and inverse) exhausted over all ASCII strings up to the stated length",
  "C03": "all expression trees up to the stated depth over all operator spellings, rendered with minimal parentheses, symbolic operands and operator case; fparser's grouping compared with a reference derived from the standard's grammar",
+ "C04": "a statement of every catalogue program laid out in other standard-conforming free-form ways (continued at token boundaries / inside tokens / inside character literals, leading '&' or not, trailing comment, blank or comment line between parts, ';' join, indentation, symbolic letter case); tree compared with the canonical layout's tree",
+ "C05": "catalogue programs rendered in fixed form with one statement wrapped at a chosen position, symbolic column-6 continuation mark, symbolic comment introducer, left/right justified labels; detector must answer fixed and the tree must equal the free-form tree; symbolic label fields for the detector",
  "C06": "arbitrary short texts (every character symbolic) and every catalogue program with one character position replaced by / preceded by a symbolic character or deleted/duplicated; outcome must be a tree or FortranSyntaxError; per-path wall-clock limit detects non-termination; codec error handler checked for progress",
  "C07": "every statement of every catalogue program replaced by symbolic garbage on one or two physical lines; the error message's line number and quoted text compared (z3 equality on the symbolic message) with the known last line of the statement",
  "C08": "structural edits (delete opener / END, surplus END, END name := symbolic different name, delete/insert one parenthesis outside character context) of every construct in several contexts; each edited program must raise",
  "C10": "same exploration as C01; on every path (every back-tracking pattern the symbolic lexeme can provoke) the tree and the re-parsed tree satisfy the parent/children/root/walk invariants",
+ "C12": "reader-level: every catalogue statement continued at every split point with comments/blank lines/';'; expected items (text modulo blanks outside literals, label, construct name, span, comments in order) known by construction from an independent layout oracle; symbolic get/put/look-ahead schedules over streams",
+ "C15": "simple statements hidden behind OpenMP conditional sentinels in free and fixed form, continued over one or two sentinel lines; symbolic character after '!$' (decides conditional line vs comment), sentinel letter, column 6, continuation mark; trees compared with the sentinel-blanked / statement-removed programs",
  "C17": "differential symbolic execution: the same symbolic program through the f2003 and f2008 registries inside one path; acceptance implication and text equality decided by z3",
  "C18": "real copy.deepcopy and pickle round trip on every explored path; equality of printed text and structure for all lexemes decided by z3; class coverage from the catalogue",
 }
